@@ -150,7 +150,7 @@ theorem solver_rank {s s' : State} {evs : List Ev}
      constructor
      · grind [pcRank]
      · have hspc := ‹s.spc = _›
-       simp only [hspc, solverPos, List.length_cons, List.length_nil] at hrq hwq ⊢
+       simp only [hspc, solverPos] at hrq hwq ⊢
        grind [ctxOff])
 
 /-! ### in every unfinished state some enabled step decreases the rank -/
